@@ -746,3 +746,94 @@ func LocalFieldStore(al *ssa.Alloc, field int) (ssa.Value, bool) { return localF
 
 // ValueID exposes valueID (function-qualified SSA name).
 func ValueID(v ssa.Value) string { return valueID(v) }
+
+// MapTable is a package-level map that is filled once, by its composite
+// literal in the package initialiser, and never written again: a lookup table.
+type MapTable struct {
+	Global  *ssa.Global
+	Entries []MapEntry
+}
+
+type MapEntry struct{ Key, Val ssa.Value }
+
+// GlobalMapTable recognises v as a load of such a table and returns its
+// entries. ok is false when the global is assigned or updated anywhere else
+// (any store to it outside init, any MapUpdate / delete / clear on a load of it).
+func GlobalMapTable(v ssa.Value) (*MapTable, bool) {
+	ld, ok := v.(*ssa.UnOp)
+	if !ok || ld.Op != token.MUL {
+		return nil, false
+	}
+	g, ok := ld.X.(*ssa.Global)
+	if !ok || g.Pkg == nil {
+		return nil, false
+	}
+	if _, isMap := g.Type().(*types.Pointer).Elem().Underlying().(*types.Map); !isMap {
+		return nil, false
+	}
+	initFn := g.Pkg.Func("init")
+	if initFn == nil {
+		return nil, false
+	}
+	t := &MapTable{Global: g}
+	var made ssa.Value
+	nStores := 0
+	for _, m := range g.Pkg.Members {
+		fns := []*ssa.Function{}
+		switch x := m.(type) {
+		case *ssa.Function:
+			fns = append(fns, WithClosures(x)...)
+		case *ssa.Type:
+			for _, tt := range []types.Type{x.Type(), types.NewPointer(x.Type())} {
+				ms := g.Pkg.Prog.MethodSets.MethodSet(tt)
+				for i := 0; i < ms.Len(); i++ {
+					if f := g.Pkg.Prog.MethodValue(ms.At(i)); f != nil && f.Pkg == g.Pkg && f.Synthetic == "" {
+						fns = append(fns, WithClosures(f)...)
+					}
+				}
+			}
+		}
+		for _, f := range fns {
+			for _, b := range f.Blocks {
+				for _, in := range b.Instrs {
+					switch x := in.(type) {
+					case *ssa.Store:
+						if x.Addr == ssa.Value(g) {
+							nStores++
+							if f != initFn {
+								return nil, false
+							}
+							made = x.Val
+						}
+					case *ssa.MapUpdate:
+						if l2, ok := x.Map.(*ssa.UnOp); ok && l2.X == ssa.Value(g) {
+							return nil, false
+						}
+					case *ssa.Call:
+						if bi, ok := x.Common().Value.(*ssa.Builtin); ok && (bi.Name() == "delete" || bi.Name() == "clear") && len(x.Common().Args) > 0 {
+							if l2, ok := x.Common().Args[0].(*ssa.UnOp); ok && l2.X == ssa.Value(g) {
+								return nil, false
+							}
+						}
+					}
+				}
+			}
+		}
+	}
+	if nStores != 1 || made == nil {
+		return nil, false
+	}
+	if _, ok := made.(*ssa.MakeMap); !ok || made.Referrers() == nil {
+		return nil, false
+	}
+	for _, r := range *made.Referrers() {
+		switch x := r.(type) {
+		case *ssa.MapUpdate:
+			t.Entries = append(t.Entries, MapEntry{x.Key, x.Value})
+		case *ssa.Store, *ssa.DebugRef:
+		default:
+			return nil, false
+		}
+	}
+	return t, true
+}
